@@ -96,6 +96,7 @@ def run(ctx):
     for f, d in w.unknown_decorators:
         ctx.unk("C16.0", f"{f} is wrapped by the decorator @{d}", f"{w.rel_of(f)}:{w.model.funcs[f].node.lineno}",
                 "the effects of the wrapper are not modelled; obligations that involve this function are not decided")
+    thread_local_pitfalls(ctx, w)
     caches, counters, bad = classify(ctx, w)
 
     # ---- violations ------------------------------------------------------------------------------------
@@ -170,6 +171,43 @@ def run(ctx):
     ctx.analysed["shared_write_groups"] = len(bad) + sum(len(v[1]) for v in caches.values()) + len(counters)
     ctx.analysed["caches"] = [f"{k[0]}::{k[1]}" for k in sorted(caches)]
     return w, caches, counters, bad
+
+
+def thread_local_pitfalls(ctx, w: World) -> None:
+    """C16.4: an attribute of a threading.local() object exists only in the thread that assigned it.  When every plain store of
+    `<local>.attr` sits in a constructor / module body (which runs once, in one thread) and another function reads or
+    augments `<local>.attr`, every other thread gets AttributeError."""
+    model = w.model
+    locals_: Dict[str, Tuple[str, int]] = {}          # textual holder ('self._stats' / '_tls') -> (function, line)
+    for fq, fi in model.funcs.items():
+        for n in ast.walk(fi.node):
+            if isinstance(n, ast.Assign) and isinstance(n.value, ast.Call) and core.src(n.value.func) in ("threading.local", "local") and not n.value.args:
+                for t in n.targets:
+                    if isinstance(t, (ast.Name, ast.Attribute)):
+                        locals_[core.src(t)] = (fq, n.lineno)
+    for holder, (created_in, line) in sorted(locals_.items()):
+        attr_of = holder.rsplit(".", 1)[-1]
+        stores: Dict[str, List[Tuple[str, int]]] = {}
+        reads: Dict[str, List[Tuple[str, int]]] = {}
+        for fq, fi in model.funcs.items():
+            for n in ast.walk(fi.node):
+                if isinstance(n, ast.Attribute) and isinstance(n.value, (ast.Name, ast.Attribute)) and core.src(n.value).rsplit(".", 1)[-1] == attr_of:
+                    if isinstance(n.ctx, ast.Store):
+                        par_aug = any(isinstance(m, ast.AugAssign) and m.target is n for m in ast.walk(fi.node))
+                        (reads if par_aug else stores).setdefault(n.attr, []).append((fq, n.lineno))
+                    elif isinstance(n.ctx, ast.Load):
+                        reads.setdefault(n.attr, []).append((fq, n.lineno))
+        for a, rd in sorted(reads.items()):
+            st = stores.get(a, [])
+            once = [x for x in st if x[0].endswith(".__init__") or model.funcs[x[0]].is_module_body]
+            elsewhere = [x for x in rd if x[0] in w.reach and x not in once and not (x[0].endswith(".__init__"))]
+            if st and len(once) == len(st) and elsewhere:
+                f, l = elsewhere[0]
+                ctx.bad("C16.4", f"thread-local attribute {holder}.{a} is initialised only where the object is created", f"{w.rel_of(f)}:{l}",
+                        f"`{holder} = threading.local()` (in {created_in}) and its `.{a}` is assigned in {sorted({x[0].split('.', 2)[-1] for x in once})} only; "
+                        f"{f} uses `.{a}` (reachable via {w.path_to(f)}): a thread other than the creating one raises AttributeError there")
+            elif st and elsewhere:
+                ctx.ok("C16.4", f"thread-local attribute {holder}.{a} is assigned in the code that uses it", f"{w.rel_of(elsewhere[0][0])}:{elsewhere[0][1]}", "")
 
 
 def _positive_control(ctx):
